@@ -96,14 +96,16 @@ def one_round(ctx, d, hb, mexe, n, extra, known, st, dist, viol, seen_known, dis
                     dist["result"][res] = dist["result"].get(res, 0) + 1
                     if tsz > 8 or vsz > 8:
                         distinct.add((tsz, vsz, fl, r[1][:48]))
-                payload = dict(L.case_lines(d, cid), flags=fl, backend=backend, result=r[:2], features=sorted(feats),
-                               options=[b for i, b in enumerate(FLAGBITS) if fl >> i & 1])
+                def mkpayload(cid=cid, fl=fl, backend=backend, r=r, feats=feats):
+                    # the request lines are looked up only when something is reported (a scan of model.in)
+                    return dict(L.case_lines(d, cid), flags=fl, backend=backend, result=r[:2], features=sorted(feats),
+                                options=[b for i, b in enumerate(FLAGBITS) if fl >> i & 1])
                 # errors the statement demands / forbids (corpus)
                 want = expect_witness(cid, fl)
                 if want:
                     st["error_cases"] += 1
                     if (r[0] == "ok") != (want == "ok"):
-                        viol.append(("errors", cid, "%s under option word %d (%s): expected %s, got %s" % (cid, fl, backend, want, L.show(r)), payload))
+                        viol.append(("errors", cid, "%s under option word %d (%s): expected %s, got %s" % (cid, fl, backend, want, L.show(r)), mkpayload()))
                 # tie to the model
                 e = m.get("E:%s:%d" % (backend, fl))
                 if e is not None:
@@ -111,7 +113,7 @@ def one_round(ctx, d, hb, mexe, n, extra, known, st, dist, viol, seen_known, dis
                     if not L.same_result(e[:-1], r, sortk, mm):
                         st["tie_bad"] += 1
                         viol.append(("tie", cid, "Marshal (%s, option word %d) differs from the model: impl %s / model %s" % (backend, fl, L.show(r), L.show(e)),
-                                     dict(payload, model=e[:2])))
+                                     dict(mkpayload(), model=e[:2])))
                 t = rr.get("T:%d" % fl)
                 if r[0] != "ok" or not t:
                     continue
@@ -127,7 +129,7 @@ def one_round(ctx, d, hb, mexe, n, extra, known, st, dist, viol, seen_known, dis
                     elif loose:
                         seen_known.setdefault("KF-C04-native-validator-strings", cid)
                     else:
-                        viol.append(("wellformed", cid, "successful Marshal (%s, option word %d) returned text that is not one well-formed JSON value: %s" % (backend, fl, L.show(r)), payload))
+                        viol.append(("wellformed", cid, "successful Marshal (%s, option word %d) returned text that is not one well-formed JSON value: %s" % (backend, fl, L.show(r)), mkpayload()))
                 # round trip
                 for which, v in (("sonic", rts), ("encoding/json", rtstd)):
                     if v == "-":
@@ -139,7 +141,7 @@ def one_round(ctx, d, hb, mexe, n, extra, known, st, dist, viol, seen_known, dis
                         seen_known.setdefault("KF-C04-negzero-decode", cid)
                         st["roundtrip_known"] += 1
                         continue
-                    viol.append(("roundtrip", cid, "decoding the output of Marshal (%s, option word %d) with %s does not give back the value: %s" % (backend, fl, which, L.show(r)), payload))
+                    viol.append(("roundtrip", cid, "decoding the output of Marshal (%s, option word %d) with %s does not give back the value: %s" % (backend, fl, which, L.show(r)), mkpayload()))
         # the interpreter and the JIT must agree on error vs bytes too (stack bound finding)
     return True
 
